@@ -3,6 +3,8 @@ import Soa.Spec.Vec
 import Soa.Lemmas.PerField
 import Soa.Lemmas.Loops
 import Soa.Lemmas.SpecRetain
+import Soa.Model.Pinned
+import Soa.Extracted.Bodies
 /-!
 # C01 — the SoA vector is observationally a `Vec<T>`
 
@@ -424,5 +426,14 @@ example : exC.lock 2 ∧ exE.lock 1 ∧ exC.same exE := by
 example : (Model.insert false exC 1 exE).st.rows = (Spec.insert false exC.rows 1 exE.rows).st :=
   (insert false 1 (n := 2) (by simp [exC, Cols.lock]) (by simp [exE, Cols.lock])
     (by simp [exC, exE, Cols.same, Cols.same.sameL])).st
+
+/-- **text pin**: the generated functions this property's hand-written model describes have, in
+    /repo today, exactly the text the model was written from (`Soa/Model/Pinned.lean`) -/
+theorem bodies_pinned :
+    Soa.Extracted.bodies.filter (fun r => Soa.Model.scopeOf r == "C01") =
+    Soa.Model.pinned.filter (fun r => Soa.Model.scopeOf r == "C01") := by decide +kernel
+
+theorem bodies_pinned_nonempty :
+    (Soa.Model.pinned.filter (fun r => Soa.Model.scopeOf r == "C01")).length ≥ 4 := by decide +kernel
 
 end Soa.C01
